@@ -525,11 +525,11 @@ TargetSeq(c) ==
   ELSE IF c \in {"lp", "lpi"} THEN <<"Nlp_10", "Nlp_999", "Nlp_1000", "Nlp_1001">>
   ELSE <<>>
 \* '('^d far beyond the cap, in every slot that opens a list or body; in the quick tier
-\* a sample of the slots (every 4th in the thorough tier: each such line at a body slot costs the
-\* real client tens of seconds) (an unbounded-recursion probe is always part of
+\* a sample of the slots (every 8th in the thorough tier: each such line at a body slot costs the
+\* real client tens of seconds on the current tree) (an unbounded-recursion probe is always part of
 \* the harness' resource families)
 DeepSeq(c) == IF c \in {"lp", "lpi"} THEN <<"Nlp_100000", "Nlp_1000000">> ELSE <<>>
-DeepStride == IF Stride = 1 THEN 4 ELSE Stride \div 2
+DeepStride == IF Stride <= 2 THEN 8 ELSE Stride \div 2
 KeepDeep(bi, i) == DeepStride = 1 \/ ((bi * 131 + i * 31) % DeepStride) = (Seed % DeepStride)
 
 Drop(s, i)   == SubSeq(s, 1, i - 1) \o SubSeq(s, i + 1, Len(s))
@@ -572,8 +572,8 @@ Singles(bi, i) ==
        \cup (IF c \in OpenClasses
                THEN LET f == FamOf(c)  j == CHOOSE j \in 1..L : b.toks[j].s = "c" \o f IN
                     {Mut("nest", i, OpenTok(f, d), j, CloseTok(f, d)) : d \in Depths \ {1}}
-                    \cup {Mut("rep", i, OpenTok(f, d), 0, "") : d \in {d \in Depths \ {1} : d <= Cap + 1 \/ Stride = 1 \/ KeepDeep(bi, i)}}
-                    \cup {Mut("cut", i, OpenTok(f, d), 0, "") : d \in {d \in Depths \ {1} : d <= Cap + 1 \/ Stride = 1 \/ KeepDeep(bi, i)}}
+                    \cup {Mut("rep", i, OpenTok(f, d), 0, "") : d \in {d \in Depths \ {1} : d <= Cap + 1 \/ Stride <= 2 \/ KeepDeep(bi, i)}}
+                    \cup {Mut("cut", i, OpenTok(f, d), 0, "") : d \in {d \in Depths \ {1} : d <= Cap + 1 \/ Stride <= 2 \/ KeepDeep(bi, i)}}
                ELSE {})
 
 \* double mutations: a second single-token edit (small alphabet) after the first
